@@ -6,6 +6,7 @@
 //!   hv replay <path>                                     re-execute a recorded violation
 //!   hv list
 
+mod alloc;
 mod canon;
 mod pkt;
 mod pool;
@@ -13,9 +14,13 @@ mod props;
 mod rt;
 mod scenario;
 mod sha256;
+mod siggen;
 mod tcpref;
 
 use rt::Tier;
+
+#[global_allocator]
+static GLOBAL: alloc::Counting = alloc::Counting;
 
 fn usage() -> ! {
     eprintln!("usage: hv <ID> [--tier quick|thorough|miri] [--seed N] | hv replay <path> | hv list");
